@@ -41,9 +41,9 @@ def exc_class(e):
 # ---------------------------------------------------------------------------
 def encode_file(path, c):
     """Write the raw variables of case c as a CF-1.8 geometry dataset."""
-    ds = netCDF4.Dataset(path, "w", format="NETCDF4")
+    ds = netCDF4.Dataset(path, "w", format=c.get("fmt", "NETCDF4"))
     try:
-        ds.Conventions = "CF-1.8"
+        ds.Conventions = "CF-1.9" if c.get("domain") else "CF-1.8"
         nnodes = c["nnodes"]
         nc = c.get("nc")
         pnc = c.get("pnc")
@@ -79,7 +79,12 @@ def encode_file(path, c):
             v[...] = np.array(pnc, dtype="i4")
             gc.part_node_count = "part_node_count"
         if ring is not None:
-            v = ds.createVariable("interior_ring", "i4", ("part",))
+            rdim = "part"
+            if c.get("ring_dim") == "foreign":
+                # not CF: the ring variable on a dimension of its own
+                ds.createDimension("ring_part", len(ring))
+                rdim = "ring_part"
+            v = ds.createVariable("interior_ring", "i4", (rdim,))
             v[...] = np.array(ring, dtype="i4")
             gc.interior_ring = "interior_ring"
         for k, n in enumerate(names):
@@ -109,6 +114,14 @@ def encode_file(path, c):
             pr.coordinates = " ".join(reps)
         pr[...] = np.arange(ncells * (2 if c.get("time") else 1), dtype="f8").reshape(
             (ncells, 2) if c.get("time") else (ncells,))
+        if c.get("domain"):
+            # a CF-1.9 domain variable naming the same container
+            dv = ds.createVariable("dom", "i4", ())
+            dv.setncattr("dimensions", inst)
+            dv.geometry = "geometry_container"
+            dv.long_name = "cells only"
+            if reps:
+                dv.coordinates = " ".join(reps)
     finally:
         ds.close()
 
@@ -130,15 +143,20 @@ def tolist(a):
 
 
 def observe_field(f):
-    """What a user sees of the geometry cells of field f."""
+    """What a user sees of the geometry cells of field (or domain) f."""
     out = {"coords": [], "nfields": 1}
-    out["field_shape"] = list(f.shape)
+    try:
+        out["field_shape"] = list(f.shape)
+    except AttributeError:
+        out["field_shape"] = None
     for key, c in sorted(f.auxiliary_coordinates(todict=True).items()):
         b = c.get_bounds(None)
         if b is None:
             continue
         o = {"key": key}
         o["bncvar"] = b.nc_get_variable(None)
+        ax = b.get_property("axis", None)
+        o["axis"] = str(ax) if ax is not None else None
         o["ncvar"] = c.nc_get_variable(None)
         o["geometry"] = c.get_geometry(None)
         try:
@@ -178,12 +196,13 @@ def raw_file(path):
     ds = netCDF4.Dataset(path, "r")
     ds.set_auto_maskandscale(False)
     try:
-        out = {"containers": []}
+        out = {"containers": [], "datavars": {}}
         seen = set()
         for vn, v in ds.variables.items():
             if "geometry" not in v.ncattrs():
                 continue
             gname = v.getncattr("geometry")
+            out["datavars"][vn] = {"container": gname, "dims": list(v.dimensions)}
             if gname in seen:
                 continue
             seen.add(gname)
@@ -228,7 +247,10 @@ def do_R(c, d, tag, i):
     path = os.path.join(d, f"{tag}_{i}_r.nc")
     encode_file(path, c)
     try:
-        fs = cfdm.read(path)
+        if c.get("backend"):
+            fs = cfdm.read(path, netcdf_backend=c["backend"])
+        else:
+            fs = cfdm.read(path)
     except Exception as e:  # noqa
         row["read_exc"] = exc_class(e) + ":" + str(e)[:200]
         return row
@@ -240,13 +262,168 @@ def do_R(c, d, tag, i):
     f = pr[0]
     row["obs"] = observe_field(f)
     row["obs"]["nfields"] = len(fs)
+    if c.get("domain"):
+        try:
+            ds_ = [d for d in cfdm.read(path, domain=True) if d.nc_get_variable(None) == "dom"]
+            row["dobs"] = observe_field(ds_[0]) if len(ds_) == 1 else {"coords": [], "missing": True}
+        except Exception as e:  # noqa
+            row["dom_exc"] = exc_class(e) + ":" + str(e)[:200]
     if c.get("rewrite"):
         path2 = os.path.join(d, f"{tag}_{i}_w.nc")
         try:
-            cfdm.write(f, path2)
+            cfdm.write(f, path2, fmt=c.get("wfmt", "NETCDF4"))
             row["raw"] = raw_file(path2)
         except Exception as e:  # noqa
             row["write_exc"] = exc_class(e) + ":" + str(e)[:200]
+    return row
+
+
+# ---------------------------------------------------------------------------
+# several data variables / several containers in one dataset
+# ---------------------------------------------------------------------------
+def encode_multi(path, c):
+    """containers: raw variables + the indices of the instance / node / part dimensions they use
+    (containers with equal indices share that netCDF dimension); datavars: which container each data
+    variable names and whether it lies on that container's cell dimension ("own") or on another
+    dimension of the same size ("other", not CF)."""
+    ds = netCDF4.Dataset(path, "w", format="NETCDF4")
+    try:
+        ds.Conventions = "CF-1.8"
+        celldim = []
+        for k, g in enumerate(c["containers"]):
+            nn = g["nnodes"]
+            nd = f"node{g['ndim']}"
+            if nd not in ds.dimensions:
+                ds.createDimension(nd, nn)
+            if g["nc"] is not None:
+                idim = f"inst{g['idim']}"
+                if idim not in ds.dimensions:
+                    ds.createDimension(idim, len(g["nc"]))
+            else:
+                idim = nd
+            celldim.append(idim)
+            gc = ds.createVariable(f"gc{k}", "i4", ())
+            gc.geometry_type = g["gtype"]
+            names = [f"{a}{k}" for a in VARN[:g["nvars"]]]
+            gc.node_coordinates = " ".join(names)
+            if g["nc"] is not None:
+                v = ds.createVariable(f"nc{k}", "i4", (idim,))
+                v[...] = np.array(g["nc"], dtype="i4")
+                gc.node_count = f"nc{k}"
+            if g["pnc"] is not None:
+                pd = f"part{g['pdim']}"
+                if pd not in ds.dimensions:
+                    ds.createDimension(pd, len(g["pnc"]))
+                v = ds.createVariable(f"pnc{k}", "i4", (pd,))
+                v[...] = np.array(g["pnc"], dtype="i4")
+                gc.part_node_count = f"pnc{k}"
+                if g["ring"] is not None:
+                    v = ds.createVariable(f"ring{k}", "i4", (pd,))
+                    v[...] = np.array(g["ring"], dtype="i4")
+                    gc.interior_ring = f"ring{k}"
+            for j, n in enumerate(names):
+                v = ds.createVariable(n, "f8", (nd,))
+                v.standard_name = STDN[j]
+                v.units = UNITS[j]
+                v.axis = AXIS[j]
+                v[...] = np.array(g["data"][j], dtype="f8")
+            reps = []
+            ncells = len(g["nc"]) if g["nc"] is not None else nn
+            for j in range(min(g.get("coords") or 0, len(names))):
+                v = ds.createVariable(f"{REPN[j]}{k}", "f8", (idim,))
+                v.standard_name = STDN[j]
+                v.units = UNITS[j]
+                v.nodes = names[j]
+                v[...] = np.arange(ncells, dtype="f8") + 100 * (j + 1)
+                reps.append(f"{REPN[j]}{k}")
+            if reps:
+                gc.coordinates = " ".join(reps)
+            g["_reps"] = reps
+            g["_ncells"] = ncells
+        for i, d in enumerate(c["datavars"]):
+            g = c["containers"][d["container"]]
+            dim = celldim[d["container"]]
+            if d.get("dim") == "other":
+                dim = f"other{i}"
+                ds.createDimension(dim, g["_ncells"])
+            v = ds.createVariable(f"v{i}", "f8", (dim,))
+            v.standard_name = "precipitation_amount"
+            v.long_name = f"variable {i}"
+            v.units = "kg m-2"
+            v.geometry = f"gc{d['container']}"
+            coords = list(g["_reps"]) if d.get("dim") != "other" else []
+            if d.get("foreign_rep") is not None and d.get("dim") != "other":
+                # a representative coordinate variable that belongs to ANOTHER container (its nodes
+                # attribute names that container's node coordinates) on the same instance dimension
+                coords += c["containers"][d["foreign_rep"]]["_reps"]
+            if coords:
+                v.coordinates = " ".join(coords)
+            v[...] = np.arange(g["_ncells"], dtype="f8") + i
+    finally:
+        ds.close()
+
+
+def observe_many(fs, names):
+    out = {}
+    for f in fs:
+        n = f.nc_get_variable(None)
+        if n in names:
+            out[n] = observe_field(f)
+    return out
+
+
+def do_M(c, d, tag, i):
+    row = {}
+    path = os.path.join(d, f"{tag}_{i}_r.nc")
+    encode_multi(path, c)
+    names = [f"v{k}" for k in range(len(c["datavars"]))]
+    try:
+        fs = cfdm.read(path)
+    except Exception as e:  # noqa
+        row["read_exc"] = exc_class(e) + ":" + str(e)[:200]
+        return row
+    row["nfields"] = len(fs)
+    row["obs"] = observe_many(fs, names)
+    if c.get("rewrite"):
+        path2 = os.path.join(d, f"{tag}_{i}_w.nc")
+        try:
+            keep = sorted((f for f in fs if f.nc_get_variable(None) in names),
+                          key=lambda f: f.nc_get_variable())
+            cfdm.write(keep, path2)
+            row["raw"] = raw_file(path2)
+            row["obs2"] = observe_many(cfdm.read(path2), names)
+        except Exception as e:  # noqa
+            row["write_exc"] = exc_class(e) + ":" + str(e)[:200]
+    return row
+
+
+def do_W2(c, d, tag, i):
+    """Several fields built through the API and written to ONE dataset."""
+    row = {}
+    fields = []
+    for k, fc in enumerate(c["fields"]):
+        f = build_field(fc)
+        f.nc_set_variable(f"v{k}")
+        if c.get("share_axis"):
+            # an identical dimension coordinate makes the fields share the netCDF instance dimension
+            n = len(fc["bounds"][0])
+            dc = cfdm.DimensionCoordinate(properties={"long_name": "station"},
+                                          data=cfdm.Data(np.arange(n, dtype="f8")))
+            dc.nc_set_variable("station")
+            f.set_construct(dc, axes=f.get_data_axes())
+        fields.append(f)
+    names = [f"v{k}" for k in range(len(fields))]
+    path = os.path.join(d, f"{tag}_{i}_w.nc")
+    try:
+        cfdm.write(fields, path)
+    except Exception as e:  # noqa
+        row["write_exc"] = exc_class(e) + ":" + str(e)[:200]
+        return row
+    row["raw"] = raw_file(path)
+    try:
+        row["obs"] = observe_many(cfdm.read(path), names)
+    except Exception as e:  # noqa
+        row["read_exc"] = exc_class(e) + ":" + str(e)[:200]
     return row
 
 
@@ -325,7 +502,7 @@ def main():
     tag = p.get("tag", "w")
     for i, c in enumerate(p["cases"]):
         try:
-            row = do_R(c, d, tag, i) if c["kind"] == "R" else do_W(c, d, tag, i)
+            row = {"R": do_R, "W": do_W, "M": do_M, "W2": do_W2}[c["kind"]](c, d, tag, i)
         except Exception as e:  # noqa
             row = {"driver_exc": exc_class(e) + ":" + str(e)[:300]}
         row["i"] = i
